@@ -94,6 +94,15 @@ def crash {α} (k : Crash) (site : String) : P α := P.fail (.crash k site)
 def getState : P PState := fun s => .ok s s
 def modifyState (f : PState → PState) : P Unit := fun s => .ok () (f s)
 
+/-- `[f(x) for x in l]` inside the monad -/
+def mapP {α β} (f : α → P β) (l : List α) : P (List β) :=
+  match l with
+  | [] => pure []
+  | x :: xs => do
+    let y ← f x
+    let ys ← mapP f xs
+    pure (y :: ys)
+
 /-- lift an `Option` whose `none` is a Python `AttributeError` -/
 def attrOrCrash {α} (o : Option α) (site : String) : P α :=
   match o with
@@ -357,7 +366,7 @@ def fixDeclNameType (decl : Val) (typename : List Val) : P Val := do
       else
         setTyp decl fun td => td.setAttr "type" (mk .IdentifierType dco [Val.strs ["int"]])
     else
-      let names ← typename.mapM fun idt => do
+      let names ← mapP (l := typename) fun idt => do
         let ns ← attrOrCrash (idt.getAttr "names") "id.names"
         match ns with
         | .list l => pure l
